@@ -9,12 +9,12 @@ let toks_of (s : string) : itok list =
   List.concat_map (fun t ->
     if t = "" then [] else
     match t.[0] with
-    | 'n' -> [TNull] | 't' -> [TBool true] | 'f' -> [TBool false]
-    | 'i' -> [TInt (z_of_int (int_of_string (tail t)))]
-    | 'N' -> [TName (key_of (tail t))]
-    | 'r' -> [TRef (n_of_int (int_of_string (tail t)))]
-    | '[' -> [TAO] | ']' -> [TAC] | '<' -> [TDO] | '>' -> [TDC]
-    | 'z' -> List.init (int_of_string (tail t)) (fun _ -> TNull)
+    | 'n' -> [ItNull] | 't' -> [ItBool true] | 'f' -> [ItBool false]
+    | 'i' -> [ItInt (z_of_int (int_of_string (tail t)))]
+    | 'N' -> [ItName (key_of (tail t))]
+    | 'r' -> [ItRef (n_of_int (int_of_string (tail t)))]
+    | '[' -> [ItAO] | ']' -> [ItAC] | '<' -> [ItDO] | '>' -> [ItDC]
+    | 'z' -> List.init (int_of_string (tail t)) (fun _ -> ItNull)
     | _ -> failwith ("token " ^ t)) (String.split_on_char '.' s)
 
 let hx_of (s : string) : hexpr =
